@@ -9,6 +9,7 @@ import (
 	"reflect"
 	"strconv"
 	"strings"
+	"unicode/utf8"
 )
 
 // Node represents a node in the template parse tree
@@ -421,7 +422,8 @@ func (n *ForNode) renderForLoop(w io.Writer, ctx *RenderContext, seq interface{}
 	case reflect.Map:
 		length = val.Len()
 	case reflect.String:
-		length = val.Len()
+		// Strings are iterated by character, so the length is the character count
+		length = utf8.RuneCountInString(val.String())
 	default:
 		// For other types, try to convert to an interface slice
 		// to support custom iterables
@@ -454,6 +456,17 @@ func (n *ForNode) renderForLoop(w io.Writer, ctx *RenderContext, seq interface{}
 
 	// Update loop.length
 	loopVars["loop"].(map[string]interface{})["length"] = length
+
+	// A nested loop must not clobber the enclosing loop's "loop" variable:
+	// put the previous binding back once this loop is done
+	prevLoop, hadLoop := loopCtx.context["loop"]
+	defer func() {
+		if hadLoop {
+			loopCtx.context["loop"] = prevLoop
+		} else {
+			delete(loopCtx.context, "loop")
+		}
+	}()
 
 	// Iterate based on the type
 	switch val.Kind() {
@@ -531,7 +544,10 @@ func (n *ForNode) renderForLoop(w io.Writer, ctx *RenderContext, seq interface{}
 		}
 
 	case reflect.String:
-		for i, char := range val.String() {
+		// Iterate by character; i counts characters, not bytes
+		i := -1
+		for _, char := range val.String() {
+			i++
 			// Set the loop variables
 			loopVars["loop"].(map[string]interface{})["index"] = i + 1
 			loopVars["loop"].(map[string]interface{})["index0"] = i
